@@ -124,14 +124,6 @@ private:
     friend constexpr auto get(tuple<Us...>&& t) -> decltype(auto); // NOLINT
     template <size_t N, typename... Us>
     friend constexpr auto get(tuple<Us...> const&& t) -> decltype(auto); // NOLINT
-    template <typename T, typename... Us>
-    friend constexpr auto get(tuple<Us...>& t) -> auto&; // NOLINT
-    template <typename T, typename... Us>
-    friend constexpr auto get(tuple<Us...> const& t) -> auto const&; // NOLINT
-    template <typename T, typename... Us>
-    friend constexpr auto get(tuple<Us...>&& t) -> auto&&; // NOLINT
-    template <typename T, typename... Us>
-    friend constexpr auto get(tuple<Us...> const&& t) -> auto const&&; // NOLINT
 
     using impl_t = detail::tuple_impl<etl::index_sequence_for<Ts...>, Ts...>;
     TETL_NO_UNIQUE_ADDRESS impl_t _impl; // NOLINT(modernize-use-default-member-init)
@@ -282,6 +274,47 @@ template <etl::size_t I, typename... Ts>
 {
     static_assert(I < sizeof...(Ts));
     return etl::move(t).template get_impl<I>(etl::index_v<I>);
+}
+
+namespace detail {
+
+/// Index of the element of type T in Ts... . T must occur exactly once.
+template <typename T, typename... Ts>
+[[nodiscard]] consteval auto tuple_index_of() noexcept -> etl::size_t
+{
+    static_assert(((is_same_v<T, Ts> ? 1 : 0) + ... + 0) == 1, "type must occur exactly once in the tuple");
+    auto index = etl::size_t{0};
+    auto found = false;
+    ((found = found or is_same_v<T, Ts>, index += found ? 0 : 1), ...);
+    return index;
+}
+
+} // namespace detail
+
+/// \brief Extracts the element of the tuple t whose type is T. Fails to compile unless the tuple has exactly one
+/// element of that type.
+template <typename T, typename... Ts>
+[[nodiscard]] constexpr auto get(tuple<Ts...>& t) noexcept -> T&
+{
+    return etl::get<detail::tuple_index_of<T, Ts...>()>(t);
+}
+
+template <typename T, typename... Ts>
+[[nodiscard]] constexpr auto get(tuple<Ts...> const& t) noexcept -> T const&
+{
+    return etl::get<detail::tuple_index_of<T, Ts...>()>(t);
+}
+
+template <typename T, typename... Ts>
+[[nodiscard]] constexpr auto get(tuple<Ts...>&& t) noexcept -> T&&
+{
+    return etl::get<detail::tuple_index_of<T, Ts...>()>(etl::move(t));
+}
+
+template <typename T, typename... Ts>
+[[nodiscard]] constexpr auto get(tuple<Ts...> const&& t) noexcept -> T const&&
+{
+    return etl::get<detail::tuple_index_of<T, Ts...>()>(etl::move(t));
 }
 
 template <typename... Ts, typename... Us>
